@@ -38,8 +38,9 @@ static void *client(void *a){ long role = (long)a;
   for (int i=0;i<nops && !viol;i++){
     if (role % 2 == 0) { atomic_fetch_add(&sigStarted,1); dispatch_semaphore_signal(S); atomic_fetch_add(&sigDone,1); if (rnd()%3==0) usleep(rnd()%60); }
     else { int k = (int)(rnd()%3); uint64_t to = k==0 ? 0 : rnd()%300000;
+      uint64_t t0=now_ns();       // read BEFORE the deadline is computed: the deadline is then at least t0 + to (a preemption between the two lines only makes the wait look longer)
       dispatch_time_t t = k==0 ? DISPATCH_TIME_NOW : dispatch_time(DISPATCH_TIME_NOW,(int64_t)to);
-      uint64_t t0=now_ns(); long r=dispatch_semaphore_wait(S,t); uint64_t t1=now_ns();
+      long r=dispatch_semaphore_wait(S,t); uint64_t t1=now_ns();
       if (r==0){ long s=atomic_fetch_add(&okw,1)+1; long sg=atomic_load(&sigStarted); if(s>init+sg) fail("more successful waits than initial value + signals started: successes/signals",s,sg,init); }
       else { atomic_fetch_add(&tmo,1); if(t1-t0<to) fail("dispatch_semaphore_wait returned non-zero before its timeout elapsed: ns early",(long)(to-(t1-t0)),0,0); } } }
   atomic_fetch_add(&clients_done,1); while(!atomic_load(&clients_release)) usleep(200);   // stay alive while the pinger may still signal this thread
